@@ -516,7 +516,7 @@ def _project(base, pr, fn):
             return base[3][pr["i"]]
         if base[0] == "aggr" and base[4] and pr["name"] in base[4]:
             return base[3][base[4].index(pr["name"])]
-        return ("field", base, pr["name"] if pr["name"] is not None else str(pr["i"]))
+        return ("field", base, pr["name"] if pr["name"] is not None else str(pr["i"]), pr.get("adt"))
     if k == "downcast":
         return ("as", base, pr["name"])
     if k == "index":
